@@ -16,7 +16,6 @@ open IsoVerif IsoVerif.Core
 def splitArrow (fs : List String) : List String × List String :=
   (fs.takeWhile (· != "=>"), (fs.dropWhile (· != "=>")).drop 1)
 
-def toks (s : String) : List String := (s.splitOn " ").filter (· != "")
 
 def handle (fs : List String) : String :=
   let (req, impl) := splitArrow fs
@@ -26,17 +25,18 @@ def handle (fs : List String) : String :=
     match op.splitOn "." with
     | [prop, "op"] =>
       match args with
-      | [_spec, wire, dg] => Drv.opLine prop (toks wire) (toks dg) impl
+      | [_spec, wire, dg] => Drv.opLine prop (Drv.toks wire) (Drv.toks dg) impl
       | _ => "bad-op\tok"
     | [prop, "param"] =>
       match args with
-      | [_spec, wire] => Drv.paramLine prop (toks wire) impl
+      | [_spec, wire] => Drv.paramLine prop (Drv.toks wire) impl
       | _ => "bad-op\tok"
     | [_, "persisted"] =>
       match args with
-      | [_spec, wires, table, plain] => Drv.persistedLine (toks wires) (toks table) (toks plain) impl
+      | [_spec, wires, table, plain] => Drv.persistedLine (Drv.toks wires) (Drv.toks table) (Drv.toks plain) impl
       | _ => "bad-op\tok"
     | [prop, "alias"] => Drv.aliasLine prop args impl
+    | [_, "alias2"] => Drv.alias2Line args impl
     | [_, "fail"] => "-\tok"
     | _ => "bad-op\tok"
 
